@@ -168,6 +168,7 @@ type Clause struct {
 	Kind  string // requires ensures invariant decreases modifies assume-free kinds only
 	Label string
 	Props []string
+	Group string // proof group: obligations of a group see only ungrouped facts and facts of their own group
 	Expr  Expr
 	Raw   string
 	Pos   Position
